@@ -247,12 +247,13 @@ class Gen:
                 head = r.choice(["REPEAT %s := %s TO %s;" % (i, self.lit("int"), self.expr("int", scope, 2)),
                                  "REPEAT %s := %s TO %s BY %s;" % (i, self.lit("int"), self.lit("int"), r.choice(["1", "2", "-1"])),
                                  "REPEAT WHILE %s;" % self.expr("bool", scope, 2), "REPEAT UNTIL %s;" % self.expr("bool", scope, 2),
+                                 "REPEAT;",
                                  "REPEAT %s := 1 TO 10 WHILE %s UNTIL %s;" % (i, self.expr("bool", scope, 2), self.expr("bool", scope, 2))])
                 out.append(head)
                 inner = scope + ([(i, "INTEGER")] if (" " + i + " ") in head else [])
                 out += ["  " + s for s in self.stmts(inner, ret_kind, depth + 1, r.randint(1, 2))]
-                if r.random() < 0.3:
-                    out.append("  " + r.choice(["SKIP;", "ESCAPE;"]))
+                if r.random() < 0.3 or head == "REPEAT;":
+                    out.append("  " + ("ESCAPE;" if head == "REPEAT;" else r.choice(["SKIP;", "ESCAPE;"])))
                 out.append("END_REPEAT;")
             elif c < 0.72 and depth < 2:
                 sel = self.expr("int", scope, 2)
